@@ -13,8 +13,9 @@ excluded regions, the heap model of SBuf.cc/MemBlob.cc never reaches undefined b
 referrers), and every object's bytes and every call's result (including `thrown`) equal those of `Spec.run` on
 independent byte lists.  `_partial`: `Safe` excludes (1) four argument regions in which the real code violates the
 property -- each proved below as a counterexample of the model, which the differential run confirms on the real
-code --, (2) the printf family (no std::string counterpart), (3) trim / toLower / toUpper, whose byte-wise loops
-are modelled and differentially tested but whose refinement proof is not finished (`LoopsProved`).
+code --, (2) the printf family (appendf/Printf: no std::string counterpart; modelled, differentially tested, and the
+source of the third counterexample), (3) foreign areas longer than maxSize handed to assign() (it throws after
+clearing the object) and arguments that do not fit size_type.
 -/
 import SquidModel.SBuf.Counter
 
